@@ -23,6 +23,7 @@ fn main() {
             "--twice" => cfg.twice = true,
             "--no-state" => cfg.no_state = true,
             "--own-dir" => cfg.own_dir = true,
+            "--exact-floats" => vq::val::EXACT_FLOATS.store(true, std::sync::atomic::Ordering::Relaxed),
             "--digest-above" => { cfg.digest_above = Some(args[i + 1].parse().unwrap()); i += 1; }
             x => { eprintln!("unknown arg {}", x); std::process::exit(2); }
         }
